@@ -1,8 +1,10 @@
 package main
 
 import (
+	"crypto/sha256"
 	"fmt"
 	"go/types"
+	"math/bits"
 	"sort"
 	"strings"
 
@@ -438,7 +440,7 @@ func init() {
 				return in.ts.Bool(true)
 			}
 			// As method is ignored (not used by modelled code); follow Unwrap
-			m := in.prog.LookupMethod(err.t, nil, "Unwrap")
+			m := in.findMethod(err.t, nil, "Unwrap")
 			if m == nil || m.Signature.Results().Len() != 1 {
 				break
 			}
@@ -475,6 +477,45 @@ func init() {
 	reg("github.com/buildbarn/bb-storage/pkg/util.DecimalExponentialBuckets", func(in *Interp, fr *frame, a []Value) Value {
 		return Slice{nil: true} // histogram bucket boundaries: metrics only
 	})
+
+	// ---- crypto on concrete input: run natively ----
+	reg("crypto/sha256.Sum256", func(in *Interp, fr *frame, a []Value) Value {
+		data := in.concBytes(a[0])
+		sum := sha256.Sum256(data)
+		out := make(Array, len(sum))
+		for i, b := range sum {
+			out[i] = in.ts.Const(8, uint64(b))
+		}
+		return out
+	})
+
+	// ---- sort.Slice / SliceStable: real pdqsort from source, native swapper ----
+	sortSlice := func(stable bool) intrinsic {
+		return func(in *Interp, fr *frame, a []Value) Value {
+			sl, ok := a[0].(Iface).v.(Slice)
+			if !ok {
+				unsupported("sort.Slice on %T", a[0].(Iface).v)
+			}
+			elems := sl.a
+			swap := &nativeFunc{name: "swapper", f: func(in *Interp, caller *frame, args []Value) Value {
+				i, j := in.concInt(args[0]), in.concInt(args[1])
+				elems[i], elems[j] = elems[j], elems[i]
+				return nil
+			}}
+			ls := Struct{a[1], swap}
+			pkg := in.eng.pkgByPath["sort"]
+			n := in.ts.Const(64, uint64(len(elems)))
+			if stable {
+				in.callSSA(fr, 0, pkg.Func("stable_func"), []Value{ls, n}, nil)
+			} else {
+				limit := in.ts.Const(64, uint64(bits.Len(uint(len(elems)))))
+				in.callSSA(fr, 0, pkg.Func("pdqsort_func"), []Value{ls, in.ts.Const(64, 0), n, limit}, nil)
+			}
+			return nil
+		}
+	}
+	reg("sort.Slice", sortSlice(false))
+	reg("sort.SliceStable", sortSlice(true))
 
 	// ---- time ----
 	reg("time.Sleep", func(in *Interp, fr *frame, a []Value) Value { in.schedPoint("sleep"); return nil })
@@ -568,6 +609,20 @@ func init() {
 
 // promOpaque is the dynamic value of metrics collectors handed out by the prometheus model.
 type promOpaque struct{}
+
+// concBytes extracts a concrete byte slice (symbolic content is outside what native models accept).
+func (in *Interp) concBytes(v Value) []byte {
+	s := v.(Slice)
+	out := make([]byte, len(s.a))
+	for i, e := range s.a {
+		t := e.(*Term)
+		if !t.IsConst() {
+			unsupported("symbolic bytes passed to a natively modelled function")
+		}
+		out[i] = byte(t.c)
+	}
+	return out
+}
 
 func nonNil(x []*Term) []*Term {
 	if x == nil {
@@ -705,7 +760,7 @@ func (in *Interp) fmtArgSpec(v Value, spec string, verb byte) string {
 		// error / Stringer
 		if verb == 'v' || verb == 's' || verb == 'q' {
 			for _, mname := range []string{"Error", "String"} {
-				if m := in.prog.LookupMethod(itf.t, nil, mname); m != nil && m.Signature.Params().Len() == 0 && m.Signature.Results().Len() == 1 {
+				if m := in.findMethod(itf.t, nil, mname); m != nil && m.Signature.Params().Len() == 0 && m.Signature.Results().Len() == 1 {
 					if b, ok := m.Signature.Results().At(0).Type().Underlying().(*types.Basic); ok && b.Kind() == types.String {
 						r := in.callSSA(nil, 0, m, []Value{itf.v}, nil)
 						if verb == 'q' {
